@@ -1,8 +1,9 @@
 (* C13 — lemmas about the Math part *)
-From Coq Require Import ZArith Bool List Lia.
+From Coq Require Import ZArith Bool List Lia Zify.
 From Otto Require Import Common.Double C13.SpecMath C13.ModelMath.
 Import ListNotations.
 Open Scope Z_scope.
+Ltac Zify.zify_post_hook ::= Z.div_mod_to_equations.
 
 (* ---------- special-value tables ---------- *)
 (* every ES5 rule for pow is honoured by otto's wrapper over math.Pow, except
@@ -31,4 +32,236 @@ Lemma atan2_table_eq : forall cy cx, otto_atan2_tbl cy cx = atan2_tbl cy cx.
 Proof.
   intros cy cx.
   destruct cy as [| [] | [] | [] []]; destruct cx as [| [] | [] | [] []]; reflexivity.
+Qed.
+
+(* ---------- max / min ---------- *)
+Lemma key_ninf : key ninf_bits = - pinf_bits - 1.
+Proof. vm_compute. reflexivity. Qed.
+Lemma key_pinf : key pinf_bits = pinf_bits.
+Proof. vm_compute. reflexivity. Qed.
+
+Lemma absb_range : forall b, 0 <= absb b < 2 ^ 63.
+Proof. intro b. unfold absb. apply Z.mod_pos_bound. reflexivity. Qed.
+
+Lemma hi_decomp : forall a, 2 ^ 63 <= a < 2 ^ 64 -> a = 2 ^ 63 + absb a.
+Proof.
+  intros a H. unfold absb.
+  change (2 ^ 63) with 9223372036854775808 in *. change (2 ^ 64) with 18446744073709551616 in *. lia.
+Qed.
+
+Lemma max_step_ninf : forall a, valid_bits a -> is_nan a = false -> max_step ninf_bits a = a.
+Proof.
+  intros a [H0 H1] Hn. unfold max_step. rewrite key_ninf.
+  unfold is_nan in Hn. apply Z.ltb_ge in Hn.
+  pose proof (absb_range a) as Ha. unfold key, sgnb.
+  assert (2 ^ 63 = 9223372036854775808) as P63 by reflexivity.
+  assert (2 ^ 64 = 18446744073709551616) as P64 by reflexivity.
+  assert (pinf_bits = 9218868437227405312) as PI by reflexivity.
+  destruct (Z.leb_spec (2 ^ 63) a) as [Hs | Hs].
+  - assert (a = 2 ^ 63 + absb a) as Ea by (apply hi_decomp; lia).
+    destruct (Z.ltb_spec (- pinf_bits - 1) (- absb a - 1)); [reflexivity |].
+    assert (absb a = pinf_bits) by lia. unfold ninf_bits. lia.
+  - destruct (Z.ltb_spec (- pinf_bits - 1) a); [reflexivity | lia].
+Qed.
+
+Lemma min_step_pinf : forall a, valid_bits a -> is_nan a = false -> min_step pinf_bits a = a.
+Proof.
+  intros a [H0 H1] Hn. unfold min_step. rewrite key_pinf.
+  unfold is_nan in Hn. apply Z.ltb_ge in Hn.
+  pose proof (absb_range a) as Ha. unfold key, sgnb.
+  assert (2 ^ 63 = 9223372036854775808) as P63 by reflexivity.
+  assert (pinf_bits = 9218868437227405312) as PI by reflexivity.
+  destruct (Z.leb_spec (2 ^ 63) a) as [Hs | Hs].
+  - destruct (Z.ltb_spec (- absb a - 1) pinf_bits); [reflexivity | lia].
+  - assert (absb a = a) as Ea by (unfold absb; apply Z.mod_small; lia).
+    destruct (Z.ltb_spec a pinf_bits); [reflexivity | lia].
+Qed.
+
+Lemma step_not_nan : forall a b, is_nan a = false -> is_nan b = false ->
+  is_nan (max_step a b) = false /\ is_nan (min_step a b) = false.
+Proof.
+  intros a b Ha Hb. unfold max_step, min_step.
+  destruct (key a <? key b); destruct (key b <? key a); auto.
+Qed.
+
+Lemma fold_loop_max : forall l r, is_nan r = false ->
+  fold_loop go_max r l = if existsb is_nan l then nan_bits else fold_left max_step l r.
+Proof.
+  induction l as [| v l IH]; intros r Hr; [reflexivity |].
+  cbn [fold_loop existsb fold_left].
+  destruct (is_nan v) eqn:Ev; [reflexivity |]. cbn [orb].
+  assert (go_max r v = max_step r v) as -> by (unfold go_max; rewrite Hr, Ev; reflexivity).
+  apply IH. apply step_not_nan; assumption.
+Qed.
+
+Lemma fold_loop_min : forall l r, is_nan r = false ->
+  fold_loop go_min r l = if existsb is_nan l then nan_bits else fold_left min_step l r.
+Proof.
+  induction l as [| v l IH]; intros r Hr; [reflexivity |].
+  cbn [fold_loop existsb fold_left].
+  destruct (is_nan v) eqn:Ev; [reflexivity |]. cbn [orb].
+  assert (go_min r v = min_step r v) as -> by (unfold go_min; rewrite Hr, Ev; reflexivity).
+  apply IH. apply step_not_nan; assumption.
+Qed.
+
+(* otto's argument-count switch and early-exit loop compute the ES5 maximum *)
+Lemma max_model_is_spec : forall l, Forall valid_bits l -> max_model l = max_spec l.
+Proof.
+  intros l HV. unfold max_model, maxmin_model, max_spec.
+  destruct l as [| a rest]; [reflexivity |].
+  inversion HV as [| ? ? Ha HV']; subst.
+  cbn [existsb fold_left].
+  destruct (is_nan a) eqn:En.
+  { cbn [orb]. destruct rest; [unfold canon; rewrite En |]; reflexivity. }
+  cbn [orb]. rewrite (max_step_ninf a Ha En).
+  destruct rest as [| b rest']; [unfold canon; rewrite En; reflexivity |].
+  apply fold_loop_max; assumption.
+Qed.
+
+Lemma min_model_is_spec : forall l, Forall valid_bits l -> min_model l = min_spec l.
+Proof.
+  intros l HV. unfold min_model, maxmin_model, min_spec.
+  destruct l as [| a rest]; [reflexivity |].
+  inversion HV as [| ? ? Ha HV']; subst.
+  cbn [existsb fold_left].
+  destruct (is_nan a) eqn:En.
+  { cbn [orb]. destruct rest; [unfold canon; rewrite En |]; reflexivity. }
+  cbn [orb]. rewrite (min_step_pinf a Ha En).
+  destruct rest as [| b rest']; [unfold canon; rewrite En; reflexivity |].
+  apply fold_loop_min; assumption.
+Qed.
+
+(* the fold returns one of its inputs, and it dominates all of them *)
+Lemma fold_max_char : forall l r,
+  let m := fold_left max_step l r in
+  (m = r \/ In m l) /\ key r <= key m /\ (forall x, In x l -> key x <= key m).
+Proof.
+  induction l as [| v l IH]; intro r; cbn [fold_left In].
+  { split; [auto |]. split; [lia | intros x []]. }
+  specialize (IH (max_step r v)). cbv zeta in IH. destruct IH as (I1 & I2 & I3).
+  assert (key r <= key (max_step r v) /\ key v <= key (max_step r v) /\
+          (max_step r v = r \/ max_step r v = v)) as (S1 & S2 & S3).
+  { unfold max_step. destruct (Z.ltb_spec (key r) (key v)); repeat split; auto; lia. }
+  split.
+  { destruct I1 as [E | Hin]; [| auto]. rewrite E. destruct S3 as [-> | ->]; auto. }
+  split; [lia |].
+  intros x [<- | Hx]; [lia | auto].
+Qed.
+
+Lemma fold_min_char : forall l r,
+  let m := fold_left min_step l r in
+  (m = r \/ In m l) /\ key m <= key r /\ (forall x, In x l -> key m <= key x).
+Proof.
+  induction l as [| v l IH]; intro r; cbn [fold_left In].
+  { split; [auto |]. split; [lia | intros x []]. }
+  specialize (IH (min_step r v)). cbv zeta in IH. destruct IH as (I1 & I2 & I3).
+  assert (key (min_step r v) <= key r /\ key (min_step r v) <= key v /\
+          (min_step r v = r \/ min_step r v = v)) as (S1 & S2 & S3).
+  { unfold min_step. destruct (Z.ltb_spec (key v) (key r)); repeat split; auto; lia. }
+  split.
+  { destruct I1 as [E | Hin]; [| auto]. rewrite E. destruct S3 as [-> | ->]; auto. }
+  split; [lia |].
+  intros x [<- | Hx]; [lia | auto].
+Qed.
+
+Lemma key_zero : forall b, valid_bits b -> key b = 0 -> b = 0.
+Proof.
+  intros b [H0 H1] Hk. unfold key, sgnb in Hk. pose proof (absb_range b).
+  destruct (Z.leb_spec (2 ^ 63) b); lia.
+Qed.
+Lemma key_nzero : forall b, valid_bits b -> key b = -1 -> b = nzero_bits.
+Proof.
+  intros b [H0 H1] Hk. unfold key, sgnb in Hk. pose proof (absb_range b) as Ha.
+  assert (2 ^ 63 = 9223372036854775808) as P63 by reflexivity.
+  assert (2 ^ 64 = 18446744073709551616) as P64 by reflexivity.
+  destruct (Z.leb_spec (2 ^ 63) b); [| lia].
+  assert (absb b = 0) as E by lia.
+  pose proof (hi_decomp b ltac:(lia)). unfold nzero_bits. lia.
+Qed.
+
+(* 15.8.2.11: +0 is considered larger than -0, whatever the argument order *)
+Lemma max_zero : forall l, Forall valid_bits l -> existsb is_nan l = false ->
+  In 0 l -> (forall x, In x l -> key x <= 0) -> max_spec l = 0.
+Proof.
+  intros l HV Hn H0 Hle. unfold max_spec. rewrite Hn.
+  destruct (fold_max_char l ninf_bits) as (I1 & I2 & I3). cbv zeta in *.
+  set (m := fold_left max_step l ninf_bits) in *.
+  pose proof (I3 0 H0) as Hge. change (key 0) with 0 in Hge.
+  destruct I1 as [E | Hin].
+  { rewrite E, key_ninf in Hge. unfold pinf_bits in Hge. lia. }
+  apply key_zero; [rewrite Forall_forall in HV; auto | specialize (Hle m Hin); lia].
+Qed.
+
+Lemma min_zero : forall l, Forall valid_bits l -> existsb is_nan l = false ->
+  In nzero_bits l -> (forall x, In x l -> -1 <= key x) -> min_spec l = nzero_bits.
+Proof.
+  intros l HV Hn H0 Hle. unfold min_spec. rewrite Hn.
+  destruct (fold_min_char l pinf_bits) as (I1 & I2 & I3). cbv zeta in *.
+  set (m := fold_left min_step l pinf_bits) in *.
+  pose proof (I3 nzero_bits H0) as Hge. change (key nzero_bits) with (-1) in Hge.
+  destruct I1 as [E | Hin].
+  { rewrite E, key_pinf in Hge. unfold pinf_bits in Hge. lia. }
+  apply key_nzero; [rewrite Forall_forall in HV; auto | specialize (Hle m Hin); lia].
+Qed.
+
+(* the maximum is NaN exactly when an argument is NaN *)
+Lemma max_nan_iff : forall l, Forall valid_bits l ->
+  (is_nan (max_spec l) = true <-> existsb is_nan l = true) /\
+  (is_nan (min_spec l) = true <-> existsb is_nan l = true).
+Proof.
+  intros l HV. unfold max_spec, min_spec.
+  destruct (existsb is_nan l) eqn:E.
+  { split; split; auto. }
+  assert (forall x, In x l -> is_nan x = false) as Hx.
+  { intros x Hin. destruct (is_nan x) eqn:Ex; [| reflexivity].
+    assert (existsb is_nan l = true) by (apply existsb_exists; eauto). congruence. }
+  destruct (fold_max_char l ninf_bits) as ([E1 | E1] & _).
+  - destruct (fold_min_char l pinf_bits) as ([E2 | E2] & _); cbv zeta in *.
+    + rewrite E1, E2. split; split; intro H; discriminate H.
+    + rewrite E1, (Hx _ E2). split; split; intro H; discriminate H.
+  - destruct (fold_min_char l pinf_bits) as ([E2 | E2] & _); cbv zeta in *.
+    + rewrite E2, (Hx _ E1). split; split; intro H; discriminate H.
+    + rewrite (Hx _ E1), (Hx _ E2). split; split; intro H; discriminate H.
+Qed.
+
+(* ---------- round ---------- *)
+(* 15.8.2.15: the result is THE integer n with n - 1/2 <= x < n + 1/2 *)
+Lemma q_round_char : forall S d, 0 < d ->
+  let n := q_round S d in 2 * n * d - d <= 2 * S < 2 * n * d + d.
+Proof.
+  intros S d Hd n. unfold n, q_round.
+  pose proof (Z.div_mod (2 * S + d) (2 * d) ltac:(lia)) as E.
+  pose proof (Z.mod_pos_bound (2 * S + d) (2 * d) ltac:(lia)) as B.
+  set (q := (2 * S + d) / (2 * d)) in *. nia.
+Qed.
+
+Lemma q_round_unique : forall S d n, 0 < d -> 2 * n * d - d <= 2 * S < 2 * n * d + d -> n = q_round S d.
+Proof.
+  intros S d n Hd H. unfold q_round.
+  apply Z.div_unique with (r := 2 * S + d - 2 * d * n); nia.
+Qed.
+
+(* whenever the binary64 sum x + 0.5 is exact, Floor(x + 0.5) is the ES5 result *)
+Lemma round_exact_sum : forall S e, e < 0 ->
+  Z.abs (fst (half_sum S e)) < 2 ^ 53 ->
+  round_int_model S e = q_round S (2 ^ (- e)).
+Proof.
+  intros S e He Hex. unfold round_int_model.
+  destruct (half_sum S e) as [N k] eqn:EH. cbn [fst] in Hex.
+  assert (round_to_double N = N) as ->.
+  { unfold round_to_double. destruct (Z.ltb_spec (Z.abs N) (2 ^ 53)); [reflexivity | lia]. }
+  unfold half_sum in EH. unfold q_round.
+  destruct (Z.leb_spec (-1) e).
+  { assert (e = -1) by lia. subst e. injection EH as EN Ek. subst N k.
+    change (2 ^ (-1 + 1)) with 1. change (2 ^ (- -1)) with 2.
+    replace (2 * S + 2) with ((S * 1 + 1) * 2) by lia. change (2 * 2) with 4.
+    replace 4 with (2 * 2) by reflexivity.
+    rewrite Z.div_mul_cancel_r by lia. reflexivity. }
+  injection EH as EN Ek. subst N k.
+  replace (2 ^ (- e)) with (2 * 2 ^ (-1 - e)).
+  2:{ replace (- e) with (1 + (-1 - e)) by lia. rewrite Z.pow_add_r by lia. reflexivity. }
+  assert (0 < 2 ^ (-1 - e)) by (apply Z.pow_pos_nonneg; lia).
+  replace (2 * S + 2 * 2 ^ (-1 - e)) with ((S + 2 ^ (-1 - e)) * 2) by lia.
+  replace (2 * (2 * 2 ^ (-1 - e))) with ((2 * 2 ^ (-1 - e)) * 2) by lia.
+  rewrite Z.div_mul_cancel_r by lia. reflexivity.
 Qed.
